@@ -122,12 +122,15 @@ func (nw *oplConfigWatcher) parseFiles() {
 		namespaces = make([]*namespace.Namespace, 0)
 		errs       []error
 	)
-	for _, reader := range nw.files.byPath {
+	for path, reader := range nw.files.byPath {
 		content, err := io.ReadAll(reader)
 		if err != nil {
 			errs = append(errs, err)
 			continue
 		}
+		// ReadAll consumed the reader; keep the content for the next parse, which
+		// re-reads every file whenever any one of them changes.
+		nw.files.byPath[path] = bytes.NewReader(content)
 		nn, ee := schema.Parse(string(content))
 		for _, e := range ee {
 			errs = append(errs, e)
